@@ -46,6 +46,8 @@ def cases(tier: str, seed: int) -> List[Dict[str, Any]]:
         out.append({'part': 'D', 'sib': i})
     for i in range(len(_DIRECTED_CHAIN)):
         out.append({'part': 'D', 'chain': i})
+    for name in _DIRECTED_2ROOTS:
+        out.append({'part': 'D', 'two': name})
     from vf.gen import corpus
     r = core.rng(seed, 'C06', 'corpus')
     cands = [p for p, nf, size in corpus.roots() if nf >= 3 and size < (300_000 if tier == 'quick' else 1_500_000)]
@@ -142,6 +144,19 @@ def _directed_chain_sources(n: int, style: str) -> Dict[str, str]:
                 src += '__all__ = [' + ', '.join(f'"C{j}"' for j in range(i, n)) + ']\n'
         out[f'pkg/m{i:03d}.py'] = src
     return out
+
+
+# fifth family: two roots (a package and a module using it) given in either order
+_DIRECTED_2ROOTS = {
+    # the usual package <-> sub-module cycle: __init__ gathers the public names, the derived class first
+    'package-gathers-derived-first': ({'shapes/__init__.py': "'Shapes.'\nfrom shapes.circle import Circle\nfrom shapes.base import Shape\n",
+                                       'shapes/base.py': "class Shape:\n    'A shape.'\n    def area(self):\n        'The area.'\n",
+                                       'shapes/circle.py': "from shapes import Shape\nclass Circle(Shape):\n    'A circle.'\n",
+                                       'app.py': "from shapes.circle import Circle\nclass Wheel(Circle):\n    'A wheel.'\n"}, ['shapes', 'app.py']),
+    # an object re-exported under the name of the sub-module it comes from, a consumer reaching the rest of that sub-module
+    'reexport-named-like-its-module': ({'pkg/__init__.py': "from pkg.bar import bar\n__all__ = ['bar']\n", 'pkg/bar.py': "class BaseBar:\n    pass\nclass bar(BaseBar):\n    pass\n",
+                                        'cli.py': "import pkg.bar\nfrom pkg.bar import BaseBar\nclass FancyBar(pkg.bar.BaseBar):\n    pass\nclass F2(BaseBar):\n    pass\n"}, ['pkg', 'cli.py']),
+}
 
 
 def worker_init() -> None:
@@ -411,6 +426,9 @@ def run_case(case: Dict[str, Any]) -> core.Res:
         elif 'chain' in case:
             params = _DIRECTED_CHAIN[case['chain']]
             srcs = _directed_chain_sources(*params)
+        elif 'two' in case:
+            params = (case['two'],)
+            srcs = _DIRECTED_2ROOTS[case['two']][0]
         else:
             params = _DIRECTED_PARAMS[case['idx']]
             srcs = _directed_sources(*params)
@@ -421,6 +439,12 @@ def run_case(case: Dict[str, Any]) -> core.Res:
                 pth.parent.mkdir(parents=True, exist_ok=True)
                 pth.write_text(text)
             label = 'directed-cycle:' + '/'.join(str(x) for x in params)
+            if 'two' in case:
+                n = _run_orders(res, [base / x for x in _DIRECTED_2ROOTS[case['two']][1]], label, 24, True, {'project': label, 'sources': srcs}, core.rng('C06', 'D2', case['two']), attribute=False)
+                res.c('directed_two_root_projects')
+                res.c('evaluations')
+                res.sample({'directed': list(params)})
+                return res
             n = _run_orders(res, [base / 'pkg'], label, 24 if 'chain' not in case else 5, 'sib' not in case and 'chain' not in case, {'project': label, 'sources': srcs if 'chain' not in case else {'chain': list(params)}},
                             core.rng('C06', 'D', case.get('idx', case.get('star', case.get('sib', case.get('chain'))))), attribute=False, spread='chain' in case)
             res.c('directed_chain_projects' if 'chain' in case else ('directed_sibling_projects' if 'sib' in case else 'directed_cycle_projects'))
